@@ -53,7 +53,7 @@ class JoinableStringList:
         purposes only, as too long lines will be wrapped in any case).
     """
 
-    _pattern_quoted_string = re.compile(r'(?:\'.*?\')|(?:".*?")')
+    _pattern_quoted_string = re.compile(r'(?:\'(?:[^\']|\'\')*\')|(?:"(?:[^"]|"")*")')
     _pattern_chunk_separator = re.compile(r'(\s|\)(?!%)|\n)')
 
     def __init__(self, items, sep, width, cont, separable=True):
